@@ -59,6 +59,8 @@ func checkC05(c *Ctx, r *Report) {
 	c05Tables(c, r)
 	c05Plumbing(c, r)
 	c05Split(c, r, "R5.3")
+	r.floor("R5.7", 8)
+	c05FullRange(c, r, "R5.7")
 	c05Loops(c, r)
 	c05SlotMerge(c, r)
 	// R5.6: extraction must not modify the response it reads, otherwise an overlapping field
@@ -559,6 +561,8 @@ func checkC06(c *Ctx, r *Report) {
 	r.floor("R6.3", 8)
 	r.floor("R6.W", 2)
 	c05Split(c, r, "R6.1")
+	r.floor("R6.4", 8)
+	c05FullRange(c, r, "R6.4")
 	c06ErrCheck(c, r)
 	c06Grouping(c, r)
 	c06KindFilter(c, r)
@@ -999,6 +1003,78 @@ func c06Wrap(c *Ctx, r *Report) {
 		}
 		if n == 0 {
 			r.ok("R6.W", id, "no 16-bit wrap-around in slot end / span arithmetic; the span-to-quantity conversion is exact", c.pos(fn.Pos()), true)
+		}
+	}
+}
+
+// c05FullRange: R5.7 / R6.4 — the batcher fills a request up to the specification limit, so each
+// read-request constructor split calls must accept every quantity in 1..limit: under that
+// premise none of its error returns is reachable.
+func c05FullRange(c *Ctx, r *Report, rule string) {
+	split := c.fnMust("", "split")
+	seen := map[*ssa.Function]bool{}
+	for _, b := range split.Blocks {
+		for _, in := range b.Instrs {
+			call, ok := in.(*ssa.Call)
+			if !ok {
+				continue
+			}
+			ctor := call.Common().StaticCallee()
+			if ctor == nil || ctor.Pkg == nil || !strings.HasSuffix(ctor.Pkg.Pkg.Path(), "/packet") || !strings.HasPrefix(ctor.Name(), "New") || seen[ctor] {
+				continue
+			}
+			seen[ctor] = true
+			r.instance(rule, 1)
+			id := fnID(ctor)
+			pos := c.pos(ctor.Pos())
+			r.funcs[id] = true
+			if len(ctor.Params) != 3 || ctor.Signature.Results().Len() != 2 {
+				r.undecided(rule, id, "constructor is not (unit id, start, quantity) -> (request, error)", pos)
+				continue
+			}
+			ptr, isP := ctor.Signature.Results().At(0).Type().(*types.Pointer)
+			var tn *types.Named
+			if isP {
+				tn, _ = ptr.Elem().(*types.Named)
+			}
+			fc, okFC := int64(0), false
+			if tn != nil {
+				fc, okFC = functionCodeOf(c, tn)
+			}
+			sp := specFor(fc)
+			if !okFC || sp == nil || len(sp.lim) == 0 {
+				r.undecided(rule, id, "function code / quantity limit of the constructed request not resolved", pos)
+				continue
+			}
+			lim := sp.lim[0]
+			an := &Analysis{ctx: c, u: newUniverse(), top: ctor}
+			fr := an.newFrame(ctor, nil, nil)
+			fr.run(dnfTrue())
+			q, isI := fr.val(ctor.Params[2]).(AInt)
+			if !isI {
+				r.undecided(rule, id, "quantity parameter is not an integer", pos)
+				continue
+			}
+			bad := ""
+			nerr := 0
+			for i := range fr.returns {
+				rs := &fr.returns[i]
+				nf := fr.nilness(rs.vals[1])
+				if nf.kind == fConst && nf.b {
+					continue // success return
+				}
+				nerr++
+				for _, cj := range rs.state {
+					if !infeasible(cj.with(atomGE(q.a, affConst(lim.lo)), atomLE(q.a, affConst(lim.hi)))) {
+						bad = fmt.Sprintf("error return at %s reachable with %s", c.pos(rs.instr.Pos()), truncate(cj.String(), 160))
+					}
+				}
+			}
+			if bad == "" {
+				r.ok(rule, id, fmt.Sprintf("accepts every quantity in [%d,%d] (none of its %d error returns is reachable in that range), so a batch filled to the limit can be built", lim.lo, lim.hi, nerr), pos, true)
+			} else {
+				r.fail(rule, id, fmt.Sprintf("rejects a quantity within the specification range [%d,%d] that the batcher can produce", lim.lo, lim.hi), pos, bad, "rejects-in-range")
+			}
 		}
 	}
 }
